@@ -1,6 +1,594 @@
 /-
-  C16 — property theorems (stub; to be filled in).
+  C16 — Save, upsert and FirstOrCreate/FirstOrInit converge to the documented state.
+
+  Model: GormModel/Model/Upsert.lean (transcribes finisher_api.go Save / FirstOrInit / FirstOrCreate /
+  assignInterfacesToValue, callbacks/create.go ConvertToCreateValues + OnConflict.UpdateAll expansion,
+  gorm.go getInstance / Session, statement.go clone, chainable_api.go Attrs / Assign).
+  The copy discipline of `Statement.clone()` enters through `genCfg`, computed from the regenerated
+  `Gen.cloneLiteral` / `Gen.cloneLater`; theorems about derivations quantify over every `CloneCfg`
+  and are then specialised to `genCfg`, so the statement that holds is decided by the current source.
 -/
+import GormModel.Lemmas.Upsert
 namespace Gorm
+open Gorm.Upsert
+
+/-! ## Session / WithContext invariance -/
+
+/-- FULL STATEMENT (holds for any tree whose `clone()` copies clauses, attrs and assigns):
+    inserting `Session(&Session{})` or `WithContext(ctx)` at any position of any chain changes nothing —
+    table, returned record, RowsAffected and error of every finisher are the same. -/
+theorem C16_session_invariant_of_full_copy (cfg : CloneCfg) (hf : cfg.full) (sch : Schema) (s : Store)
+    (steps : List Step) (f : Fin) (i : Nat) (d : Step) (hd : d.isDeriv = true) :
+    runChain cfg sch s (insertAt i d steps) f = runChain cfg sch s steps f := by
+  unfold runChain
+  have h1 := run_inv cfg (insertAt i d steps) _ base_inv
+  have h2 := run_inv cfg steps _ base_inv
+  rw [finish_eq_finishS sch s (cloneStmt_full hf _) h1, finish_eq_finishS sch s (cloneStmt_full hf _) h2,
+    run_stmt_full hf _ _ base_inv, run_stmt_full hf _ _ base_inv, foldl_insertAt _ _ _ hd]
+
+/-- PARTIAL (holds for the current tree; extra hypothesis = negation of finding F3's pattern):
+    if no Attrs/Assign with a non-empty argument list precedes the inserted derivation, the result is
+    unchanged — whatever `clone()` does with attrs/assigns. -/
+theorem C16_session_invariant_partial (cfg : CloneCfg) (hc : cfg.clauses = true) (sch : Schema) (s : Store)
+    (steps : List Step) (f : Fin) (i : Nat) (d : Step) (hd : d.isDeriv = true)
+    (hpat : ∀ st ∈ steps.take i, st.setsInit = false) :
+    runChain cfg sch s (insertAt i d steps) f = runChain cfg sch s steps f := by
+  unfold runChain insertAt
+  have e : steps = steps.take i ++ steps.drop i := (List.take_append_drop i steps).symm
+  generalize steps.take i = pre at hpat e
+  generalize steps.drop i = post at e
+  subst e
+  rw [run_append, run_append]
+  have hp : (Handle.base.run cfg pre).stmt.plain := run_plain cfg pre _ ⟨rfl, rfl⟩ hpat
+  have hi : (Handle.base.run cfg pre).Inv := run_inv cfg pre _ base_inv
+  generalize Handle.base.run cfg pre = h0 at hp hi
+  -- the derivation leaves the statement alone
+  have hs : (h0.step cfg d).stmt = h0.stmt := by
+    cases d <;> simp_all [Handle.step, Step.isDeriv, cloneStmt_plain hc hp]
+  have hi' : (h0.step cfg d).Inv := step_inv cfg h0 d
+  show finish cfg sch s ((h0.step cfg d).run cfg post) f = finish cfg sch s (h0.run cfg post) f
+  cases post with
+  | nil => exact finish_agree hc sch s hs (hs ▸ hp) hi' hi f
+  | cons st rest =>
+    show finish cfg sch s (((h0.step cfg d).step cfg st).run cfg rest) f = finish cfg sch s ((h0.step cfg st).run cfg rest) f
+    rw [step_agree hc hs (hs ▸ hp) hi' hi st]
+
+/-! ### finding F3: `Statement.clone` drops attrs / assigns -/
+
+/-- the schema of the harness model `U16` -/
+def c16Schema : Schema :=
+  { ncols := 8,
+    kind := fun c => match c with
+      | 0 => .pk | 4 => .clientDefault 7 | 5 => .dbDefault 8 | 6 => .autoCreate | 7 => .autoUpdate | _ => .plain }
+
+def c16Empty : Store := { rows := fun _ => none, next := 1 }
+
+/-- `db.Where(U{Name:"v1"}).Attrs(U{Age:2})` -/
+def c16CexChain : List Step := [.where_ [.eq 1 1], .attrs (some (.structV [(2, 2)]))]
+
+/-- COUNTEREXAMPLE (F3), for every tree whose `clone()` does not copy `attrs`:
+    `db.Where(U{Name}).Attrs(U{Age:2}).WithContext(ctx).FirstOrInit(&u)` yields Age 0, without the
+    `WithContext` it yields Age 2. -/
+theorem C16_session_invariant_counterexample (cfg : CloneCfg) (h : cfg.attrs = false) :
+    (runChain cfg c16Schema c16Empty (insertAt 2 .withCtx c16CexChain) (.firstOrInit [])).val 2 = 0 ∧
+    (runChain cfg c16Schema c16Empty c16CexChain (.firstOrInit [])).val 2 = 2 := by
+  cases cfg with
+  | mk cl ca cs =>
+    simp only at h
+    subst h
+    cases cl <;> cases cs <;> decide
+
+/-- `db.Where(U{Name:"v1"}).Assign("age", 2)` -/
+def c16CexChain2 : List Step := [.where_ [.eq 1 1], .assign (some (.kv 2 2))]
+
+def c16OneRow : Store := { rows := fun k => if k = 1 then some (fun c => if c ≤ 1 then 1 else 0) else none, next := 2 }
+
+/-- COUNTEREXAMPLE (F3, assigns), for every tree whose `clone()` does not copy `assigns` but copies clauses:
+    on a table holding (id 1, name v1) `db.Where(U{Name}).Assign("age", 2).WithContext(ctx).FirstOrCreate(&u)`
+    leaves age 0 in the row, without the `WithContext` the row gets age 2. -/
+theorem C16_assign_lost_counterexample (cfg : CloneCfg) (hc : cfg.clauses = true) (h : cfg.assigns = false) :
+    (((runChain cfg c16Schema c16OneRow (insertAt 2 .withCtx c16CexChain2)
+        (.firstOrCreate [])).store.rows 1).map (fun r => r 2)) = some 0 ∧
+    (((runChain cfg c16Schema c16OneRow c16CexChain2
+        (.firstOrCreate [])).store.rows 1).map (fun r => r 2)) = some 2 := by
+  cases cfg with
+  | mk cl ca cs =>
+    simp only at h hc
+    subst h; subst hc
+    cases ca <;> decide
+
+/-- PARTIAL, whole-chain form (extra hypothesis = exact negation of finding F3's pattern as the harness
+    decides it): a chain in which no Session/WithContext follows a non-empty Attrs/Assign gives the same
+    result as the chain with ALL its Session/WithContext calls removed — whatever `clone()` does with
+    attrs/assigns. -/
+theorem C16_session_invariant_outside_pattern (cfg : CloneCfg) (hc : cfg.clauses = true) (sch : Schema) (s : Store)
+    (steps : List Step) (f : Fin) (hpat : f3Pattern false steps = false) :
+    runChain cfg sch s steps f = runChain cfg sch s (steps.filter (fun st => !st.isDeriv)) f :=
+  finish_run_outside_pattern hc sch s f steps _ _ rfl ⟨rfl, rfl⟩ base_inv base_inv hpat
+
+/-- non-vacuity / sharpness: the F3 witness chain is inside the pattern, and a chain with the derivation
+    BEFORE the Attrs is outside it -/
+example : f3Pattern false (insertAt 2 .withCtx c16CexChain) = true := by decide
+example : f3Pattern false (insertAt 1 .withCtx c16CexChain) = false := by decide
+
+/-- what a chain means: outside the F3 pattern (and, on a tree whose `clone()` copies everything, always)
+    the outcome of `chain.finisher` is the finisher applied to the chain's accumulated conditions, its last
+    OnConflict, its last Attrs and its last Assign — Session/WithContext calls contribute nothing -/
+theorem C16_chain_semantics (cfg : CloneCfg) (hc : cfg.clauses = true) (sch : Schema) (s : Store)
+    (steps : List Step) (f : Fin) (h : cfg.full ∨ f3Pattern false steps = false) :
+    runChain cfg sch s steps f = finishS sch s (steps.foldl stmtStep Stmt.empty) f := by
+  rcases h with hf | hpat
+  · unfold runChain
+    rw [finish_eq_finishS sch s (cloneStmt_full hf _) (run_inv cfg steps _ base_inv), run_stmt_full hf _ _ base_inv]
+    rfl
+  · rw [C16_session_invariant_outside_pattern cfg hc sch s steps f hpat]
+    unfold runChain
+    have hnd : ∀ st ∈ steps.filter (fun x => !x.isDeriv), st.isDeriv = false := by
+      intro st hst
+      have := (List.mem_filter.mp hst).2
+      simpa using this
+    obtain ⟨h1, h2, h3⟩ := run_noderiv cfg _ Handle.base hnd (by decide) base_inv
+    rw [finish_low hc sch s h1 h2, h3, foldl_filter_deriv]
+    rfl
+
+
+/-- regenerated fact: `clone()` copies the clause map (conditions and ON CONFLICT travel through derivations) -/
+theorem C16_clone_copies_clauses : genCfg.clauses = true := by decide
+
+/-- WHAT HOLDS FOR THE CURRENT SOURCE TREE, decided by the regenerated clone facts: either `clone()`
+    copies attrs and assigns and Session/WithContext invariance holds in full, or it does not and the
+    F3 witness separates the two chains (and invariance still holds outside the F3 pattern). -/
+theorem C16_session_invariant_current_tree :
+    (genCfg.full ∧ ∀ (sch : Schema) (s : Store) (steps : List Step) (f : Fin) (i : Nat) (d : Step), d.isDeriv = true →
+        runChain genCfg sch s (insertAt i d steps) f = runChain genCfg sch s steps f)
+    ∨ ((genCfg.attrs = false ∨ genCfg.assigns = false) ∧
+        (∃ (sch : Schema) (s : Store) (steps : List Step) (f : Fin) (i : Nat) (d : Step), d.isDeriv = true ∧
+          ((runChain genCfg sch s (insertAt i d steps) f).val 2 ≠ (runChain genCfg sch s steps f).val 2 ∨
+           ((runChain genCfg sch s (insertAt i d steps) f).store.rows 1).map (fun r => r 2) ≠
+             ((runChain genCfg sch s steps f).store.rows 1).map (fun r => r 2))) ∧
+        (∀ (sch : Schema) (s : Store) (steps : List Step) (f : Fin) (i : Nat) (d : Step), d.isDeriv = true →
+          (∀ st ∈ steps.take i, st.setsInit = false) →
+          runChain genCfg sch s (insertAt i d steps) f = runChain genCfg sch s steps f)) := by
+  have hc := C16_clone_copies_clauses
+  cases ha : genCfg.attrs with
+  | false =>
+    right
+    refine ⟨Or.inl rfl, ⟨c16Schema, c16Empty, c16CexChain, .firstOrInit [], 2, .withCtx, rfl, Or.inl ?_⟩, ?_⟩
+    · have := C16_session_invariant_counterexample genCfg ha
+      rw [this.1, this.2]; decide
+    · intro sch s steps f i d hd hp
+      exact C16_session_invariant_partial genCfg hc sch s steps f i d hd hp
+  | true =>
+    cases hs : genCfg.assigns with
+    | false =>
+      right
+      refine ⟨Or.inr rfl, ⟨c16Schema, c16OneRow, c16CexChain2, .firstOrCreate [], 2, .withCtx, rfl, Or.inr ?_⟩, ?_⟩
+      · have := C16_assign_lost_counterexample genCfg hc hs
+        rw [this.1, this.2]; decide
+      · intro sch s steps f i d hd hp
+        exact C16_session_invariant_partial genCfg hc sch s steps f i d hd hp
+    | true =>
+      left
+      exact ⟨⟨hc, ha, hs⟩, fun sch s steps f i d hd =>
+        C16_session_invariant_of_full_copy genCfg ⟨hc, ha, hs⟩ sch s steps f i d hd⟩
+
+/-! ## Create with an OnConflict rule -/
+
+/-- what a fresh insert stores, column by column: the value itself, except that zero values become the
+    client default / database default / NOW for tracked times / the next rowid -/
+theorem C16_inserted_row (sch : Schema) (next : Nat) (v : Row) (c : Nat) :
+    insertedRow sch next v c =
+      match sch.kind c with
+      | .pk => if v c = 0 then next else v c
+      | .plain => v c
+      | .softDelete => v c
+      | .clientDefault d => if v c = 0 then d else v c
+      | .dbDefault d => if v c = 0 then d else v c
+      | .autoCreate => if v c = 0 then NOW else v c
+      | .autoUpdate => if v c = 0 then NOW else v c := by
+  unfold insertedRow proposed fillCreate
+  cases h : sch.kind c <;> simp
+  all_goals (split <;> simp_all [NOW])
+
+/-- key absent: every rule (and no rule) inserts the row; nothing else changes -/
+theorem C16_conflict_absent_inserts (sch : Schema) (hw : sch.WF) (s : Store) (rule : Option Rule) (v : Row)
+    (habs : s.rows (targetKey s v) = none) :
+    (insertRow sch s rule v).store.rows (targetKey s v) = some (insertedRow sch s.next v) ∧
+      (insertRow sch s rule v).err = .ok ∧ (insertRow sch s rule v).ra = 1 ∧
+      ∀ j, j ≠ targetKey s v → (insertRow sch s rule v).store.rows j = s.rows j := by
+  rw [insertRow_absent hw rule habs]
+  refine ⟨by simp, rfl, rfl, ?_⟩
+  intro j hj
+  simp [hj]
+
+/-- key present, no rule: unique violation, nothing written -/
+theorem C16_no_rule_unique (sch : Schema) (hw : sch.WF) (s : Store) (v : Row) (old : Row)
+    (hex : s.rows (targetKey s v) = some old) :
+    (insertRow sch s none v).store = s ∧ (insertRow sch s none v).err = .unique := by
+  rw [insertRow_conflict_none hw hex]
+  exact ⟨rfl, rfl⟩
+
+/-- key present, DoNothing: the table is untouched, no error -/
+theorem C16_conflict_do_nothing (sch : Schema) (hw : sch.WF) (s : Store) (v : Row) (old : Row)
+    (hex : s.rows (targetKey s v) = some old) :
+    (insertRow sch s (some .doNothing) v).store = s ∧ (insertRow sch s (some .doNothing) v).err = .ok ∧
+      (insertRow sch s (some .doNothing) v).ra = 0 := by
+  rw [insertRow_conflict_rule hw _ hex]
+  exact ⟨rfl, rfl, rfl⟩
+
+/-- key present, DoUpdates: exactly the listed columns change (to the would-be-inserted value or the
+    literal), every other column and every other row stays — for every existing row and column list -/
+theorem C16_conflict_do_updates (sch : Schema) (hw : sch.WF) (s : Store) (v : Row) (old : Row)
+    (as : List (Nat × Asg)) (hex : s.rows (targetKey s v) = some old) :
+    (∃ new, (insertRow sch s (some (.doUpdates as)) v).store.rows (targetKey s v) = some new ∧ ∀ c, new c =
+        match lookupAsg as c with
+        | none => old c
+        | some .excluded => insertedRow sch s.next v c
+        | some (.lit x) => x) ∧
+      (insertRow sch s (some (.doUpdates as)) v).err = .ok ∧
+      ∀ j, j ≠ targetKey s v → (insertRow sch s (some (.doUpdates as)) v).store.rows j = s.rows j := by
+  rw [insertRow_conflict_rule hw _ hex]
+  simp only [resolve]
+  refine ⟨⟨applyAsg old (insertedRow sch s.next v) (lookupAsg as), by simp [Store.put], ?_⟩, trivial, ?_⟩
+  · intro c
+    simp only [applyAsg]
+    cases lookupAsg as c with
+    | none => rfl
+    | some a => cases a <;> rfl
+  · intro j hj
+    simp [Store.put, hj]
+
+/-- key present, UpdateAll: every column is overwritten with the would-be-inserted value EXCEPT the
+    primary key, columns whose default comes from the database and the auto-create time (kept), and
+    the auto-update time (NOW); every other row stays — for every existing row -/
+theorem C16_conflict_update_all (sch : Schema) (hw : sch.WF) (s : Store) (v : Row) (old : Row)
+    (hex : s.rows (targetKey s v) = some old) :
+    (∃ new, (insertRow sch s (some .updateAll) v).store.rows (targetKey s v) = some new ∧ ∀ c, c < sch.ncols → new c =
+        match sch.kind c with
+        | .pk => old c
+        | .dbDefault _ => old c
+        | .autoCreate => old c
+        | .autoUpdate => NOW
+        | .clientDefault d => if v c = 0 then d else v c
+        | .plain => v c
+        | .softDelete => v c) ∧
+      (insertRow sch s (some .updateAll) v).err = .ok ∧
+      ∀ j, j ≠ targetKey s v → (insertRow sch s (some .updateAll) v).store.rows j = s.rows j := by
+  rw [insertRow_conflict_rule hw _ hex]
+  by_cases hany : ((List.range sch.ncols).any fun c => (updateAllAsg sch (fillCreate sch v) c).isSome) = true
+  · -- at least one assignable column
+    simp only [resolve, hany, if_true]
+    refine ⟨⟨applyAsg old (insertedRow sch s.next v) (updateAllAsg sch (fillCreate sch v)), by simp [Store.put], ?_⟩, trivial, ?_⟩
+    · intro c _
+      cases hkind : sch.kind c <;>
+        simp [applyAsg, updateAllAsg, inInsert, insertedRow, proposed, fillCreate, hkind]
+      all_goals (try split) <;> simp_all
+    · intro j hj
+      simp [Store.put, hj]
+  · -- empty expansion degrades to DoNothing: then no column of the schema is assignable
+    simp only [resolve, hany]
+    refine ⟨⟨old, hex, ?_⟩, rfl, fun j _ => rfl⟩
+    intro c hc
+    have hnone : (updateAllAsg sch (fillCreate sch v) c).isSome = false := by
+      cases hh : (updateAllAsg sch (fillCreate sch v) c).isSome with
+      | false => rfl
+      | true =>
+        exfalso; apply hany
+        simp only [List.any_eq_true]
+        exact ⟨c, by simp [hc], hh⟩
+    simp only [updateAllAsg, inInsert] at hnone
+    cases hkind : sch.kind c <;> simp_all
+
+/-! ## Save -/
+
+/-- what `Save` leaves behind, stated once for the four ways the code can take (zero key / live row with
+    the key / no row with the key / soft-deleted row with the key). `o.val` is the caller's value after
+    the call (defaults, timestamps and the generated key are written back into it). -/
+def C16SavedFull (sch : Schema) (s : Store) (v : Row) (o : Out) : Prop :=
+  o.err = .ok ∧ o.val 0 ≠ 0 ∧ (v 0 ≠ 0 → o.val 0 = v 0) ∧
+  ∃ r, o.store.rows (o.val 0) = some r ∧
+    -- the stored row is the caller's value, tracked timestamps aside
+    (∀ c, isTracked sch c = false → r c = o.val c) ∧
+    -- ordinary columns hold exactly what was passed in, zero values included
+    (∀ c, (sch.kind c = .plain ∨ sch.kind c = .softDelete) → r c = v c) ∧
+    (∀ c d, sch.kind c = .clientDefault d → v c ≠ 0 → r c = v c) ∧
+    -- no other row is touched
+    (∀ j, j ≠ o.val 0 → o.store.rows j = s.rows j)
+
+/-- Save stores the full value whether or not its key already exists (live, soft-deleted or absent),
+    for every well-formed table and every value. -/
+theorem C16_save_stores_all (sch : Schema) (hw : sch.WF) (s : Store) (hs : s.WF) (v : Row) :
+    C16SavedFull sch s v (save sch s v) := by
+  have hk0 := kind0 hw
+  by_cases hz : v 0 = 0
+  · -- zero key: plain insert under the next rowid
+    rw [save_zero hw hs hz]
+    have hkey : insertedRow sch s.next v 0 = s.next := by
+      rw [insertedRow_key hw]; simp [targetKey, hz]
+    refine ⟨rfl, by dsimp only; rw [hkey]; have := hs.1; omega, fun h => absurd hz h, insertedRow sch s.next v, by simp [hkey], fun _ _ => rfl, ?_, ?_, ?_⟩
+    · intro c hc
+      rw [C16_inserted_row]
+      rcases hc with hc | hc <;> simp [hc]
+    · intro c d hc hv
+      rw [C16_inserted_row]; simp [hc, hv]
+    · intro j hj
+      simp only [hkey] at hj
+      simp [hj]
+  · have ht := touchUpdate_key hw v
+    cases hex : s.rows (v 0) with
+    | none =>
+      -- no row with the key: the UPDATE affects nothing, the upsert inserts
+      rw [save_absent hw hz hex]
+      have hkey : insertedRow sch s.next (touchUpdate sch v) 0 = v 0 := by
+        rw [insertedRow_key hw]; simp [targetKey, ht, hz]
+      refine ⟨rfl, by dsimp only; rw [hkey]; exact hz, fun _ => hkey, insertedRow sch s.next (touchUpdate sch v), by simp [hkey], fun _ _ => rfl, ?_, ?_, ?_⟩
+      · intro c hc
+        rw [C16_inserted_row]
+        rcases hc with hc | hc <;> simp [hc, touchUpdate]
+      · intro c d hc hv
+        rw [C16_inserted_row]; simp [hc, hv, touchUpdate]
+      · intro j hj
+        simp only [hkey] at hj
+        simp [hj]
+    | some old =>
+      have hold := (hs.2 _ _ hex).1
+      cases hv : visible sch old with
+      | true =>
+        -- live row: UPDATE of all fields
+        rw [save_live hw hz hex hv]
+        refine ⟨rfl, by dsimp only; rw [ht]; exact hz, fun _ => ht, mergeNonPk sch old (touchUpdate sch v), by simp [Store.put, ht], ?_, ?_, ?_, ?_⟩
+        · intro c _
+          by_cases hc : c = 0
+          · subst hc; simp [mergeNonPk, hk0, hold, ht]
+          · have : sch.kind c ≠ .pk := fun h => hc ((hw.2 c).1 h)
+            cases hkc : sch.kind c <;> simp_all [mergeNonPk]
+        · intro c hc
+          rcases hc with hc | hc <;> simp [mergeNonPk, touchUpdate, hc]
+        · intro c d hc _
+          simp [mergeNonPk, touchUpdate, hc]
+        · intro j hj
+          simp only [ht] at hj
+          simp [Store.put, hj]
+      | false =>
+        -- soft-deleted row with the key: the UPDATE affects nothing, the upsert overwrites it
+        rw [save_dead hw hz hex hv]
+        have hkey : backfill sch (fillCreate sch (touchUpdate sch v))
+            (applyAsg old (insertedRow sch s.next (touchUpdate sch v))
+              (updateAllAsg sch (fillCreate sch (touchUpdate sch v)))) 0 = v 0 := by
+          simp [backfill, hk0, applyAsg, updateAllAsg, hold]
+        refine ⟨rfl, by dsimp only; rw [hkey]; exact hz, fun _ => hkey,
+          applyAsg old (insertedRow sch s.next (touchUpdate sch v)) (updateAllAsg sch (fillCreate sch (touchUpdate sch v))),
+          by simp [Store.put, hkey], ?_, ?_, ?_, ?_⟩
+        · intro c hc
+          cases hkc : sch.kind c <;>
+            simp [backfill, applyAsg, updateAllAsg, inInsert, insertedRow, proposed, fillCreate, touchUpdate, hkc, isTracked] at hc ⊢
+        · intro c hc
+          rcases hc with hc | hc <;>
+            simp [applyAsg, updateAllAsg, inInsert, insertedRow, proposed, fillCreate, touchUpdate, hc]
+        · intro c d hc hv0
+          simp [applyAsg, updateAllAsg, inInsert, insertedRow, proposed, fillCreate, touchUpdate, hc, hv0]
+        · intro j hj
+          simp only [hkey] at hj
+          simp [Store.put, hj]
+
+/-- saving twice equals saving once, tracked timestamps aside: `db.Save(&v); db.Save(&v)` leaves the
+    same table and the same value as the first `Save` alone — for every table and every live value. -/
+theorem C16_save_idempotent (sch : Schema) (hw : sch.WF) (s : Store) (hs : s.WF) (v : Row)
+    (hlive : visible sch v = true) :
+    storeTsEq sch (save sch (save sch s v).store (save sch s v).val).store (save sch s v).store ∧
+    tsEq sch (save sch (save sch s v).store (save sch s v).val).val (save sch s v).val ∧
+    (save sch (save sch s v).store (save sch s v).val).err = .ok := by
+  obtain ⟨_, hz, _, r, hr, htr, hplain, _, _⟩ := C16_save_stores_all sch hw s hs v
+  generalize save sch s v = o1 at *
+  have hk0 := kind0 hw
+  have hvis : visible sch r = true := by
+    apply visible_of_cols
+    intro c hc hkc
+    rw [hplain c (Or.inr hkc)]
+    exact visible_col hlive hc hkc
+  -- the second Save finds a live row under the key and takes the UPDATE path
+  rw [save_live hw hz hr hvis]
+  refine ⟨⟨rfl, ?_⟩, ?_, rfl⟩
+  · intro k
+    by_cases hk : k = o1.val 0
+    · subst hk
+      right
+      refine ⟨mergeNonPk sch r (touchUpdate sch o1.val), r, by simp [Store.put], hr, ?_⟩
+      intro c hc
+      by_cases hc0 : sch.kind c = .pk
+      · simp [mergeNonPk, hc0]
+      · have : mergeNonPk sch r (touchUpdate sch o1.val) c = touchUpdate sch o1.val c := by
+          cases hkc : sch.kind c <;> simp_all [mergeNonPk]
+        rw [this, htr c hc]
+        cases hkc : sch.kind c <;> simp [touchUpdate, hkc, isTracked] at hc ⊢
+    · cases hrow : o1.store.rows k with
+      | none => left; simp [Store.put, hk, hrow]
+      | some a => right; exact ⟨a, a, by simp [Store.put, hk, hrow], rfl, fun _ _ => rfl⟩
+  · intro c hc
+    cases hkc : sch.kind c <;> simp [touchUpdate, hkc, isTracked] at hc ⊢
+
+/-! ## FirstOrInit / FirstOrCreate -/
+
+/-- FirstOrInit never writes: the table after it is the table before it — any chain, any conditions,
+    any attrs/assigns, any clone discipline. -/
+theorem C16_init_never_writes (cfg : CloneCfg) (sch : Schema) (s : Store) (steps : List Step) (inl : List Cond) :
+    (runChain cfg sch s steps (.firstOrInit inl)).store = s := by
+  simp only [runChain, finish, firstOrInit]
+  split <;> rfl
+
+theorem insertRow_frame (sch : Schema) (s : Store) (rule : Option Rule) (v : Row) :
+    ∃ k, ∀ j, j ≠ k → (insertRow sch s rule v).store.rows j = s.rows j := by
+  refine ⟨proposed sch s.next (fillCreate sch v) 0, ?_⟩
+  intro j hj
+  simp only [insertRow]
+  split
+  · simp [hj]
+  · split
+    · rfl
+    · split
+      · rfl
+      · simp [Store.put, hj]
+
+/-- FirstOrCreate writes at most one row: all keys but one keep their row (or absence of a row). -/
+theorem C16_create_at_most_one (cfg : CloneCfg) (sch : Schema) (s : Store) (steps : List Step) (inl : List Cond) :
+    ∃ k, ∀ j, j ≠ k → (runChain cfg sch s steps (.firstOrCreate inl)).store.rows j = s.rows j := by
+  simp only [runChain, finish, firstOrCreate]
+  split
+  · exact insertRow_frame sch s none _
+  · rename_i r _
+    refine ⟨r 0, ?_⟩
+    intro j hj
+    split
+    · rfl
+    · split
+      · split
+        · simp [Store.put, hj]
+        · rfl
+      · rfl
+
+/-- the row FirstOrInit/FirstOrCreate work on is THE first match: the live row with the smallest key
+    satisfying every condition; `none` means no live row below `next` satisfies them -/
+theorem C16_first_match_is_first (sch : Schema) (s : Store) (cs : List Cond) :
+    (∀ r, firstMatch sch s cs = some r →
+      ∃ k, k < s.next ∧ s.rows k = some r ∧ visible sch r = true ∧ holdsAll r cs = true ∧
+        ∀ i r', i < k → s.rows i = some r' → (visible sch r' && holdsAll r' cs) = false) ∧
+    (firstMatch sch s cs = none →
+      ∀ i r', i < s.next → s.rows i = some r' → (visible sch r' && holdsAll r' cs) = false) := by
+  constructor
+  · intro r h
+    obtain ⟨j, _, h2, h3, h4, h5, h6⟩ := findFrom_some s.next 0 h
+    exact ⟨j, by omega, h3, h4, h5, fun i r' hi hr => h6 i r' (by omega) hi hr⟩
+  · intro h i r' hi hr
+    exact findFrom_none s.next 0 h i r' (by omega) (by omega) hr
+
+/-- first match returned unchanged: on a hit FirstOrInit returns the row with only the assigns laid over
+    it, FirstOrCreate without Assign returns the row itself and writes nothing -/
+theorem C16_first_match_unchanged (sch : Schema) (s : Store) (cs txcs : List Cond) (attrs assigns : Option Init)
+    (r : Row) (hit : firstMatch sch s cs = some r) :
+    (firstOrInit sch s cs attrs assigns).val = applyInit r assigns ∧
+    (firstOrInit sch s cs attrs none).val = r ∧
+    (firstOrCreate sch s cs txcs attrs none).val = r ∧
+    (firstOrCreate sch s cs txcs attrs none).store = s ∧
+    (firstOrCreate sch s cs txcs attrs none).err = .ok := by
+  simp [firstOrInit, firstOrCreate, hit, applyInit]
+
+/-- Attrs only on a miss: on a hit neither finisher's outcome (table, record, RowsAffected, error)
+    depends on the attrs; on a miss the record is conditions, then attrs, then assigns -/
+theorem C16_attrs_only_on_miss (sch : Schema) (s : Store) (cs txcs : List Cond) (a1 a2 assigns : Option Init) :
+    (∀ r, firstMatch sch s cs = some r →
+      firstOrInit sch s cs a1 assigns = firstOrInit sch s cs a2 assigns ∧
+      firstOrCreate sch s cs txcs a1 assigns = firstOrCreate sch s cs txcs a2 assigns) ∧
+    (firstMatch sch s cs = none →
+      (firstOrInit sch s cs a1 assigns).val = applyInit (applyInit (assignAll zeroRow cs) a1) assigns ∧
+      firstOrCreate sch s cs txcs a1 assigns =
+        insertRow sch s none (applyInit (applyInit (assignAll zeroRow cs) a1) assigns)) := by
+  constructor
+  · intro r hit
+    simp [firstOrInit, firstOrCreate, hit]
+  · intro miss
+    simp [firstOrInit, firstOrCreate, miss, built]
+
+/-- a record built from the conditions plus Attrs plus Assign: on a miss the record is the zero value with
+    (1) every equality of the conditions (also those inside And-groups; raw SQL text contributes none),
+    then (2) the attrs, then (3) the assigns laid over it — in that order, later writes win -/
+theorem C16_built_from_conditions (cs : List Cond) (attrs assigns : Option Init) :
+    built cs attrs assigns = applyInit (applyInit (setAll zeroRow (eqsAll cs)) attrs) assigns ∧
+    ∀ c, setAll zeroRow (eqsAll cs) c = (lookupCol (eqsAll cs).reverse c).getD 0 := by
+  refine ⟨by simp [built, assignAll_eq], fun c => ?_⟩
+  rw [setAll_apply]; rfl
+
+/-- Assign in both cases (FirstOrInit): whether or not a row matched, the returned record is some base
+    record with the assigns laid over it, so every assigned column holds its (last) assigned value -/
+theorem C16_assign_both_cases (sch : Schema) (s : Store) (cs : List Cond) (attrs : Option Init) (i : Init) :
+    (∃ base, (firstOrInit sch s cs attrs (some i)).val = applyInit base (some i)) ∧
+    ∀ c v, lookupCol i.cols.reverse c = some v → (firstOrInit sch s cs attrs (some i)).val c = v := by
+  have key : ∀ base : Row, ∀ c v, lookupCol i.cols.reverse c = some v → applyInit base (some i) c = v := by
+    intro base c v h
+    simp [applyInit, setAll_apply, h]
+  cases hm : firstMatch sch s cs with
+  | some r =>
+    simp only [firstOrInit, hm]
+    exact ⟨⟨r, rfl⟩, key r⟩
+  | none =>
+    simp only [firstOrInit, hm, built]
+    exact ⟨⟨_, rfl⟩, key _⟩
+
+/-- Assign in both cases (FirstOrCreate): on a hit the matched row — and only it — gets exactly the assigned
+    columns (plus NOW in the auto-update time) in the table and in the returned record; on a miss the created
+    record carries the assigns -/
+theorem C16_assign_both_cases_create (sch : Schema) (s : Store) (cs txcs : List Cond) (attrs : Option Init) (i : Init) :
+    (∀ r cur, firstMatch sch s cs = some r → s.rows (r 0) = some cur →
+        (visible sch cur && holdsAll cur txcs) = true →
+      let o := firstOrCreate sch s cs txcs attrs (some i)
+      o.store.rows (r 0) = some (mapUpdate sch i.cols cur) ∧ o.val = mapUpdate sch i.cols r ∧
+      (∀ c v, lookupCol i.cols c = some v → o.val c = v ∧ mapUpdate sch i.cols cur c = v) ∧
+      (∀ c, lookupCol i.cols c = none → sch.kind c ≠ .autoUpdate → mapUpdate sch i.cols cur c = cur c) ∧
+      ∀ j, j ≠ r 0 → o.store.rows j = s.rows j) ∧
+    (firstMatch sch s cs = none →
+      firstOrCreate sch s cs txcs attrs (some i) =
+        insertRow sch s none (applyInit (applyInit (assignAll zeroRow cs) attrs) (some i))) := by
+  constructor
+  · intro r cur hit hcur hok
+    simp only [firstOrCreate, hit, hcur, hok, if_true]
+    refine ⟨by simp [Store.put], trivial, ?_, ?_, ?_⟩
+    · intro c v h
+      simp [mapUpdate, h]
+    · intro c h hk
+      cases hkc : sch.kind c <;> simp_all [mapUpdate]
+    · intro j hj
+      simp [Store.put, hj]
+  · intro miss
+    simp [firstOrCreate, miss, built]
+
+/-! ## sequences -/
+
+/-- a program = chain + finisher; a history runs programs one after the other on the same table -/
+def c16RunSeq (cfg : CloneCfg) (sch : Schema) (s : Store) : List (List Step × Fin) → Store
+  | [] => s
+  | p :: ps => c16RunSeq cfg sch (runChain cfg sch s p.1 p.2).store ps
+
+/-- every history of Save / Create+OnConflict / FirstOrInit / FirstOrCreate programs (whose DoUpdates and
+    Assign lists leave the primary key alone) keeps the table well-formed — so the per-operation theorems
+    above (`C16_save_*`, `C16_conflict_*`, …, all stated for well-formed tables) apply at EVERY step of
+    every history, of any length, from any well-formed start. -/
+theorem C16_wf_invariant (cfg : CloneCfg) (sch : Schema) (hw : sch.WF) (progs : List (List Step × Fin)) :
+    ∀ s : Store, s.WF → (∀ p ∈ progs, ∀ st ∈ p.1, st.ok) → (c16RunSeq cfg sch s progs).WF := by
+  induction progs with
+  | nil => intro s hs _; exact hs
+  | cons p ps ih =>
+    intro s hs hall
+    apply ih
+    · exact finish_wf hw hs (run_ok cfg p.1 _ empty_ok (hall p (by simp))) p.2
+    · intro q hq
+      exact hall q (by simp [hq])
+
+/-- non-vacuity: the harness schema and tables are well-formed, the F3 chains are admissible programs -/
+example : c16Schema.WF := ⟨by decide, fun c => by
+  constructor
+  · intro h
+    match c with
+    | 0 => rfl
+    | 1 | 2 | 3 | 4 | 5 | 6 | 7 => simp [c16Schema] at h
+    | n + 8 => simp [c16Schema] at h
+  · intro h; subst h; rfl⟩
+example : c16Empty.WF := ⟨by decide, fun k r h => by simp [c16Empty] at h⟩
+example : ∀ st ∈ c16CexChain2, st.ok := by
+  intro st h
+  simp [c16CexChain2] at h
+  rcases h with h | h <;> subst h <;> simp [Step.ok, Init.cols, lookupCol]
+
+/-! ### the hypotheses used above are satisfiable by non-trivial values -/
+
+example : ({ clauses := true, attrs := true, assigns := true } : CloneCfg).full := ⟨rfl, rfl, rfl⟩
+example : c16OneRow.WF := ⟨by decide, fun k r h => by
+  simp only [c16OneRow] at h
+  split at h
+  · rename_i hk; subst hk; cases h; decide
+  · cases h⟩
+/-- a live value colliding with the stored key 1 -/
+example : visible c16Schema (fun c => if c = 0 then 1 else 2) = true := by decide
+example : ∃ old, c16OneRow.rows (targetKey c16OneRow (fun c => if c = 0 then 1 else 2)) = some old := ⟨_, rfl⟩
+example : firstMatch c16Schema c16OneRow [.eq 1 1] ≠ none := by decide
+example : firstMatch c16Schema c16OneRow [.eq 1 2] = none := by decide
 
 end Gorm
